@@ -274,25 +274,25 @@ Proof.
       assert (Hact : nth cur (f_acts fn) 0%Z = nd_act (node_at n q)) by (apply (tr_acts _ _ _ TR); exact Hq).
       rewrite Hact, Hbp4. unfold ract at 1. rewrite (ff_known _ _ _ FF q Hq Hn).
       eexists. split; [reflexivity|].
-      set (s5 := set_sig s4 cur (f (nd_act (node_at n q)) (wsum v (nd_in (node_at n q))))).
+      set (s5 := set_bp (set_sig s4 cur (f (nd_act (node_at n q)) (wsum v (nd_in (node_at n q))))) cur (fzero Rnum)).
       assert (Hdn5 : forall i, dn s5 i = if (cur =? i)%nat then true else dn s2 i).
-      { intros i. unfold dn, s5, s4, s3, set_sig, set_inact, set_done, getB.
+      { intros i. unfold dn, s5, s4, s3, set_bp, set_sig, set_inact, set_done, getB.
         destruct (0 <? f_bias fn)%nat; simpl; rewrite nth_upd, K3;
           (destruct (cur =? i)%nat eqn:E; simpl; [|reflexivity]);
           (destruct (cur <? N)%nat eqn:E'; [reflexivity|]); apply Nat.ltb_ge in E'; lia. }
       assert (Hsg5 : forall i, sg s5 i = if (cur =? i)%nat then v q else sg s2 i).
-      { intros i. unfold sg, s5, s4, s3, set_sig, set_inact, set_done.
+      { intros i. unfold sg, s5, s4, s3, set_bp, set_sig, set_inact, set_done.
         destruct (0 <? f_bias fn)%nat; simpl; rewrite nth_upd, K1;
           (destruct (cur =? i)%nat eqn:E; simpl; [|reflexivity]);
           (destruct (cur <? N)%nat eqn:E'; [symmetry; apply SOL; assumption|]); apply Nat.ltb_ge in E'; lia. }
       assert (Hia5 : forall i, ia s5 i = if (cur =? i)%nat then false else ia s2 i).
-      { intros i. unfold ia, s5, s4, s3, set_sig, set_inact, set_done, getB.
+      { intros i. unfold ia, s5, s4, s3, set_bp, set_sig, set_inact, set_done, getB.
         destruct (0 <? f_bias fn)%nat; simpl; rewrite nth_upd, K4;
           (destruct (cur =? i)%nat eqn:E; simpl; [|reflexivity]);
           (destruct (cur <? N)%nat eqn:E'; [reflexivity|]); apply Nat.ltb_ge in E'; lia. }
       assert (Hbp5 : forall i, i <> cur -> bp s5 i = bp s2 i).
       { intros i Hne. unfold bp, s5, s4, s3, set_sig, set_inact, set_done, set_bp.
-        destruct (0 <? f_bias fn)%nat; simpl; [apply nth_upd_other; auto|reflexivity]. }
+        destruct (0 <? f_bias fn)%nat; simpl; rewrite nth_upd_other by auto; [apply nth_upd_other; auto|reflexivity]. }
       split.
       { split.
         - unfold lens4, s5, s4, s3, set_sig, set_inact, set_done, set_bp.
